@@ -13,7 +13,7 @@ from ..model_ac import ModelAC, decode_control_body
 
 ID = "C10"
 LEVEL = "exploration"
-SHARDS = {"quick": 4, "thorough": 16}
+SHARDS = {"quick": 8, "thorough": 16}
 RULE = ("a settable state (power, mode 1..6, setpoint 13.0..43.5 step 0.5, fan 0..127, swing, eco, turbo, sleep, Fahrenheit, "
         "freeze protection, follow-me, purifier, target humidity 0..127, aux mode, beep) is written through AirConditioner "
         "setters + apply() to a model device whose 0x40 decoder follows the vendor Lua layout (and through SetStateCommand "
